@@ -20,6 +20,7 @@
     the pause queue never reorders (with and without a flow)
   * open_connection_reply_truthy_iff_failed, empty_reply_is_taken_as_success, failed_connect_ends_flow_with_error:
     the `None` / `""` / message boundary of OpenConnectionCompleted.reply
+  * exactly_one_end_or_error_of_schedule: the hypothesis `phase ≠ idle` derived from `Start ∈ ins`
   * never_connected_relays_nothing: whole-history form of the connection-failure clause
   * round 3: `Input.hookKill` (flow.kill() inside any hook) is part of every schedule; *_any_sockets variants hold when
     write_eof raises OSError (initX); kill_in_message_hook_still_relays, kill_is_plain_completion
@@ -478,6 +479,39 @@ theorem failed_connect_ends_flow_with_error (st : State) (o : ConnectOutcome) (h
   unfold replyInput
   rw [ht]
   exact connect_failure_fires_error st hph hp hf
+
+/-! ### hypotheses about the state replaced by hypotheses about the schedule -/
+
+private theorem run_not_idle (st : State) (ins : List Input) (h : st.phase ≠ .idle) : (run st ins).phase ≠ .idle := by
+  induction ins generalizing st with
+  | nil => exact h
+  | cons i t ih => exact ih _ (step_not_idle st i h)
+
+private theorem started_of_start_delivered (st : State) (ins : List Input) (hs : Input.start ∈ ins) :
+    (run st ins).phase ≠ .idle := by
+  induction ins generalizing st with
+  | nil => cases hs
+  | cons i t ih =>
+    by_cases hid : st.phase = .idle
+    · rcases List.mem_cons.1 hs with e | hs'
+      · subst e
+        show (run (step st .start) t).phase ≠ .idle
+        apply run_not_idle
+        unfold step; simp only [hid]
+        split
+        · simp
+        · unfold enterRelayOrConnect; split <;> simp
+      · exact ih _ hs'
+    · show (run (step st i) t).phase ≠ .idle
+      exact run_not_idle _ _ (step_not_idle st i hid)
+
+/-- `exactly_one_end_or_error` with its state hypothesis "the layer was started" derived from the schedule:
+    it suffices that `Start` occurs somewhere in the event sequence. -/
+theorem exactly_one_end_or_error_of_schedule (p : Proto) (c : Bool) (ins : List Input)
+    (hstart : Input.start ∈ ins) (hp : (run (init p true c) ins).pending = .none)
+    (hclosed : peersFinished (run (init p true c) ins)) :
+    (run (init p true c) ins).trace.countP isEndOrError = 1 :=
+  exactly_one_end_or_error p c ins (started_of_start_delivered _ ins hstart) hp hclosed
 
 /-! ### connection failures over whole histories -/
 
